@@ -27,8 +27,8 @@ FERM_INV = ['MatIsFock', 'LocalTablesRight', 'CAR', 'CARInProducts', 'NumberIsCd
             'OrderCombineContract', 'JWRouteCorrect', 'JWRouteOddRejected', 'TermOpsCorrect', 'CorrCorrect', 'HcCorrect']
 
 
-def ferm_cfg(L, K, names, maxlen):
-    return dict(spec='Spec', constants=dict(L=L, K=K, Names=set(names), MaxLen=maxlen), invariants=FERM_INV)
+def ferm_cfg(L, K, names, maxlen, spin_at=()):
+    return dict(spec='Spec', constants=dict(L=L, K=K, Names=set(names), MaxLen=maxlen, SpinAt=set(spin_at)), invariants=FERM_INV)
 
 
 K1_CONS = ['N', 'parity', None]
@@ -53,11 +53,11 @@ def term_neutral(term, K):
 class FermEnv:
     """The real tenpy objects for one (K, L, conserve) plus the label-based basis maps."""
 
-    def __init__(self, K, L, cons):
+    def __init__(self, K, L, cons, spin_at=()):
         from tenpy.networks import site as ts
         from tenpy.models.lattice import Lattice
         from tenpy.models.model import CouplingModel
-        self.K, self.L, self.cons = K, L, cons
+        self.K, self.L, self.cons, self.spin_at = K, L, cons, tuple(spin_at)
         self.M = M = K * L
         if K == 1:
             self.site = ts.FermionSite(conserve=cons)
@@ -65,13 +65,22 @@ class FermEnv:
             self.site = ts.SpinHalfFermionSite(cons_N=cons[0], cons_Sz=cons[1])
         self.sites = [self.site] * L
         self.labels = [hs.occupations_to_labels(hs.bits_of(x, M), K) for x in range(2 ** M)]
+        if spin_at:
+            # heterogeneous chain: SpinHalfSites at `spin_at`; one common ChargeInfo through set_common_charges
+            spin = ts.SpinHalfSite(conserve={'N': 'Sz', 'parity': 'parity', None: None}[cons])
+            if cons is not None:
+                ts.set_common_charges([self.site, spin], 'same')
+            self.sites = [spin if i in spin_at else self.site for i in range(L)]
+            self.labels = [[('up' if b else 'down') if i in spin_at else lab for i, (b, lab) in enumerate(zip(hs.bits_of(x, M), labs))]
+                           for x, labs in enumerate(self.labels)]
         self.s2i = np.array([hs.product_basis_index(self.sites, lab) for lab in self.labels])
         self.lat = Lattice([1], self.sites, bc='open', bc_MPS='finite')
         self.model = CouplingModel(self.lat)
         self.model_phc = None
         self._psi = {}
         self._grouped = {}
-        self.has_c2jw = getattr(self.site, 'charge_to_JW_parity', None) is not None
+        # (on a chain without charges nothing can provide the JW signs of an open string)
+        self.has_c2jw = cons not in (None, (None, None), (None, 'Sz')) and getattr(self.site, 'charge_to_JW_parity', None) is not None
 
     def expected(self, mat, s2i=None):
         s2i = self.s2i if s2i is None else s2i
@@ -113,7 +122,9 @@ def _fail(ctx, route, clause, env, st, got, exp, extra=None):
     sig = dict(kind='replay', spec='Fermion', route=route, clause=clause, K=env.K)
     if extra:
         sig.update(extra)
-    det = dict(term=_tterm(st['term']), L=env.L, K=env.K, conserve=env.cons, got=got, expected=exp,
+    if env.spin_at:
+        sig['hetero'] = True
+    det = dict(term=_tterm(st['term']), L=env.L, K=env.K, conserve=env.cons, spin_sites=list(env.spin_at), got=got, expected=exp,
                spec_last=tlaval.to_jsonable({k: v for k, v in st['last'].items() if k != 'mat'}),
                spec_mat=list(st['last']['mat']))
     ctx.violation(sig, det)
@@ -243,7 +254,7 @@ def route_model(ctx, env, st, key, plus_hc=False):
         calls.append('add_multi_coupling')
         if len(term) == 2:
             calls.append('add_coupling')
-            if all(env.site.op_needs_JW(nm) for nm, _ in term):
+            if all(env.sites[i_].op_needs_JW(nm) for nm, i_ in term):
                 calls.append('add_coupling-opstrJW')      # the explicit op_string='JW' must mean the same
     ok = True
     for call in calls:
@@ -274,7 +285,7 @@ def route_model(ctx, env, st, key, plus_hc=False):
     return ok
 
 
-def route_mps(ctx, env, st, key, xs):
+def route_mps(ctx, env, st, key, xs, rng):
     """expectation_value_term, apply_local_term, correlation_function on basis product states."""
     from tenpy.networks.mps import MPSEnvironment
     last = st['last']
@@ -312,11 +323,32 @@ def route_mps(ctx, env, st, key, xs):
             if got != 'ValueError':
                 _fail(ctx, 'expectation_value_term', 'missing-error', env, st, dict(got=str(got), ket=env.labels[x]), 'ValueError')
                 ok = False
-        # ---- apply_local_term
+        # ---- term_correlation_function_right: T = T_L T_R with relative indices + offsets i_L, j_R
+        if not last['odd']:
+            for h in sorted(last['splits']):
+                i_L = rng.choice([-1, 0, 1, 2, 3])
+                j_R = rng.choice([1, 2, 3, 4, 5])
+                tL = [(nm, i - i_L) for nm, i in term[:h]]
+                tR = [(nm, i - j_R) for nm, i in term[h:]]
+                obj = ket if y == x else MPSEnvironment(bra, ket)
+                try:
+                    got = complex(obj.term_correlation_function_right(tL, tR, i_L, [j_R])[0])
+                except ValueError as e:
+                    got = 'ValueError: %s' % e
+                ctx.case(('ferm', key, 'tcf', h, x), action='Fermion.term_correlation_function_right')
+                if got != s:
+                    _fail(ctx, 'term_correlation_function_right', 'value', env, st,
+                          dict(got=str(got), term_L=tL, term_R=tR, i_L=i_L, j_R=[j_R], ket=env.labels[x], bra=env.labels[y]), s)
+                    ok = False
+        # ---- apply_local_term (absolute indices, and relative indices with i_offset)
         for canon in (False, True):
             p = ket.copy()
+            off = 0 if canon else rng.choice([0, 1, -1, 2, 3])
             try:
-                p.apply_local_term(list(term), canonicalize=canon)
+                if off:
+                    p.apply_local_term([(nm, i - off) for nm, i in term], i_offset=off, canonicalize=canon)
+                else:
+                    p.apply_local_term(list(term), canonicalize=canon)
                 if canon:
                     got = complex(bra.overlap(p))
                 else:
@@ -325,8 +357,9 @@ def route_mps(ctx, env, st, key, xs):
                 got = 'ValueError'
             ctx.case(('ferm', key, 'alt', canon, x), action='Fermion.apply_local_term')
             if last['odd'] and not env.has_c2jw:
-                good = (got == 'ValueError')  # charge_to_JW_signs undefined: must refuse, not drop the string
-                exp = 'ValueError'
+                # charge_to_JW_signs undefined: must refuse -- or be right anyway (no fermion left of the term) -- but never drop the string
+                good = (got == 'ValueError' or (s != 0 and got == s) or (s == 0 and got == 0))
+                exp = 'ValueError or %d' % s
             elif s == 0:
                 good = (got == 'ValueError' or got == 0)
                 exp = 0
@@ -335,13 +368,13 @@ def route_mps(ctx, env, st, key, xs):
                 exp = s
             if not good:
                 _fail(ctx, 'apply_local_term', 'value', env, st,
-                      dict(got=str(got), ket=env.labels[x], overlap_with=env.labels[y], canonicalize=canon), exp,
-                      dict(odd=bool(last['odd'])))
+                      dict(got=str(got), ket=env.labels[x], overlap_with=env.labels[y], canonicalize=canon, i_offset=off), exp,
+                      dict(odd=bool(last['odd']), charges='none' if env.cons in (None, (None, None)) else 'some'))
                 ok = False
         # ---- correlation_function
         if last['len'] == 2:
             (a, i), (b, j) = term
-            mixed = env.site.op_needs_JW(a) != env.site.op_needs_JW(b)
+            mixed = env.sites[i].op_needs_JW(a) != env.sites[j].op_needs_JW(b)
             forms = [('scalar', a, b)]
             la = ['Id'] * env.L
             lb = ['Id'] * env.L
@@ -376,41 +409,46 @@ def fermion_configs(ctx):
     """(L, K, names, maxlen, share of the terms sent through the expensive routes)"""
     if ctx.tier == 'quick':
         return [
-            (6, 1, ['C', 'Cd'], 2, 0.5),
-            (6, 1, ['C', 'Cd'], 4, 0.012),
-            (3, 1, ['C', 'Cd', 'N'], 3, 0.1),
-            (3, 2, ['Cu', 'Cdu', 'Cd', 'Cdd'], 2, 0.4),
-            (2, 2, ['Cu', 'Cdu', 'Cd', 'Cdd'], 4, 0.02),
+            (6, 1, ['C', 'Cd'], 2, 0.5, ()),
+            (6, 1, ['C', 'Cd'], 4, 0.008, ()),
+            (6, 1, ['C', 'Cd'], 4, 0.06, (0, 2, 4)),            # spin, fermion, spin, fermion, ... : 1554 terms
+            (4, 1, ['C', 'Cd', 'Sigmaz'], 3, 0.3, (1, 3)),
+            (3, 1, ['C', 'Cd', 'N'], 3, 0.1, ()),
+            (3, 2, ['Cu', 'Cdu', 'Cd', 'Cdd'], 2, 0.4, ()),
+            (2, 2, ['Cu', 'Cdu', 'Cd', 'Cdd'], 4, 0.02, ()),
         ]
     return [
-        (6, 1, ['C', 'Cd'], 4, 0.2),
-        (4, 1, ['C', 'Cd', 'N'], 4, 0.15),
-        (3, 2, ['Cu', 'Cdu', 'Cd', 'Cdd'], 4, 0.12),
-        (2, 2, ['Cu', 'Cdu', 'Cd', 'Cdd', 'Nu', 'Nd'], 4, 0.15),
+        (6, 1, ['C', 'Cd'], 4, 0.2, ()),
+        (6, 1, ['C', 'Cd'], 4, 0.5, (0, 2, 4)),
+        (6, 1, ['C', 'Cd', 'Sigmaz'], 4, 0.15, (1, 4)),
+        (4, 1, ['C', 'Cd', 'N'], 4, 0.15, ()),
+        (3, 2, ['Cu', 'Cdu', 'Cd', 'Cdd'], 4, 0.12, ()),
+        (2, 2, ['Cu', 'Cdu', 'Cd', 'Cdd', 'Nu', 'Nd'], 4, 0.15, ()),
     ]
 
 
-def get_env(ctx, envs, K, L, cons):
-    env = envs.get((K, L, cons))
+def get_env(ctx, envs, K, L, cons, spin_at=()):
+    k = (K, L, cons, tuple(spin_at))
+    env = envs.get(k)
     if env is None:
         try:
-            env = envs[(K, L, cons)] = FermEnv(K, L, cons)
+            env = envs[k] = FermEnv(K, L, cons, spin_at)
         except Exception as e:  # noqa  the documented site / chain cannot even be built
             ctx.violation(dict(kind='replay', spec='Fermion', route='site-constructor', clause='exception', K=K),
-                          dict(K=K, L=L, conserve=cons, got='%s: %s' % (type(e).__name__, e)))
-            envs[(K, L, cons)] = env = False
+                          dict(K=K, L=L, conserve=cons, spin_sites=list(spin_at), got='%s: %s' % (type(e).__name__, e)))
+            envs[k] = env = False
     return env or None
 
 
-def run_fermion(ctx, futures):
+def run_fermion(ctx, configs, futures):
     quick = ctx.tier == 'quick'
     rng = random.Random(ctx.seed * 7919 + 12)
     envs = {}
     nstates = 0
-    for (L, K, names, maxlen, share), fut in zip(fermion_configs(ctx), futures):
+    for (L, K, names, maxlen, share, spin_at), fut in zip(configs, futures):
         t0 = time.time()
         res, dump, d = fut.result()
-        name = 'Fermion(L=%d,K=%d,%s,len<=%d)' % (L, K, '/'.join(names), maxlen)
+        name = 'Fermion(L=%d,K=%d,%s,len<=%d%s)' % (L, K, '/'.join(names), maxlen, ',spin@%s' % (list(spin_at),) if spin_at else '')
         if res.violated:
             ctx.violation(dict(kind='mc', spec='Fermion', invariant=res.violated[0]),
                           dict(config=name, trace=tlaval.to_jsonable(res.error_trace)))
@@ -422,10 +460,10 @@ def run_fermion(ctx, futures):
                 continue
             n += 1
             nm_last = st['term'][-1][0]
-            act = 'AppendNum' if nm_last in ('N', 'Nu', 'Nd') else ('AppendAnn' if nm_last in ('C', 'Cu') or (nm_last == 'Cd' and K == 2) else 'AppendCre')
+            act = 'AppendSpin' if nm_last == 'Sigmaz' else 'AppendNum' if nm_last in ('N', 'Nu', 'Nd') else ('AppendAnn' if nm_last in ('C', 'Cu') or (nm_last == 'Cd' and K == 2) else 'AppendCre')
             cov[act] = cov.get(act, 0) + 1
             cons = conss[(n + ctx.seed) % len(conss)]
-            env = get_env(ctx, envs, K, L, cons)
+            env = get_env(ctx, envs, K, L, cons, spin_at)
             if env is None:
                 continue
             if CORRUPT and n == 40:
@@ -433,7 +471,7 @@ def run_fermion(ctx, futures):
             key = (K, L, repr(st['term']))
             last = st['last']
             heavy = rng.random() < share
-            route_structure(ctx, env, st, key, dense=(heavy or last['len'] <= 2 or rng.random() < 4 * share))
+            route_structure(ctx, env, st, key, dense=(heavy or last['len'] <= 2 or rng.random() < (2 if quick else 4) * share))
             if heavy:
                 route_termlist_mpo(ctx, env, st, key)
                 route_model(ctx, env, st, key, plus_hc=False)
@@ -441,7 +479,7 @@ def run_fermion(ctx, futures):
                     env2 = env
                     if not term_neutral(_tterm(st['term']), K):
                         c2 = (K1_CONS_HC if K == 1 else K2_CONS_HC)[n % 2]
-                        env2 = get_env(ctx, envs, K, L, c2)
+                        env2 = get_env(ctx, envs, K, L, c2, spin_at)
                     if env2 is not None:
                         route_model(ctx, env2, st, key, plus_hc=True)
                 for g in (2, 3):
@@ -451,7 +489,7 @@ def run_fermion(ctx, futures):
                 nz = [x for x in range(nb) if last['mat'][x]]
                 xs = set(rng.sample(nz, min(len(nz), 2 if quick else 4)))
                 xs.add(rng.randrange(nb))
-                route_mps(ctx, env, st, key, sorted(xs))
+                route_mps(ctx, env, st, key, sorted(xs), rng)
             if n == 77:
                 ctx.sample(dict(spec='Fermion', config=name, term=_tterm(st['term']),
                                 last=tlaval.to_jsonable({k: v for k, v in last.items()})))
@@ -463,14 +501,14 @@ def run_fermion(ctx, futures):
         res.coverage = {k: (v, v) for k, v in cov.items()}
         ctx.add_mc(name, res)
         print('  %s: %d terms, MC %.1fs, replay %.1fs' % (name, n, res.wall, time.time() - t0), flush=True)
-    ctx.notes['fermion_terms_replayed'] = nstates
+    ctx.notes['fermion_terms_replayed'] = ctx.notes.get('fermion_terms_replayed', 0) + nstates
 
 
 # ------------------------------------------------------------------------------------------------
 # Sites
 # ------------------------------------------------------------------------------------------------
 SITES_INV = ['HcComplete', 'ChargeRule', 'PermRule', 'JWFlags', 'SpinAlgebra', 'FermionAlgebra', 'SpinfulAlgebra',
-             'BosonAlgebra', 'ClockAlgebra', 'GroupChargeRule', 'GroupAnticommute']
+             'BosonAlgebra', 'ClockAlgebra', 'GroupChargeRule', 'GroupAnticommute', 'GroupJWParity']
 UNITS4 = [1, 1j, -1, -1j]
 import os
 CORRUPT = bool(os.environ.get('VERIF_C12_CORRUPT'))      # self-test: corrupt one predicted value per spec, expect VIOLATION
@@ -633,8 +671,8 @@ def check_table(ctx, site, T, key, stage, order, chg, qnames, qmod, extra=None):
         expd = [complex(jw[order[new]]).real for new in range(d)]
         if list(signs) != expd:
             bad('charge_to_JW_signs', list(signs), expd)
-    elif stage == 'site' and T['c2jw'] != 'none' and any(T['c2jw']):
-        bad('charge_to_JW_parity-missing', None, list(T['c2jw']))
+    elif stage == 'site' and T['c2jw']['def'] == 'yes' and any(T['c2jw']['v']):
+        bad('charge_to_JW_parity-missing', None, list(T['c2jw']['v']))
     return ok
 
 
@@ -800,6 +838,9 @@ def replay_group(ctx, tabs, grp, key):
         if h is None or h not in specops or canon[h] != _dagger(specops[nm]['sp'], grp['Mod']):
             bad('hc_ops', dict(op=nm, hc=h), 'the operator whose table is the conjugate transpose')
     c2 = getattr(g, 'charge_to_JW_parity', None)
+    if c2 is not None and grp['c2jw']['def'] == 'none':
+        # the spec finds no sound charge -> parity rule for this grouping: claiming one is only fine if it is right (checked next)
+        ctx.notes['grouped_c2jw_defined_beyond_spec'] = ctx.notes.get('grouped_c2jw_defined_beyond_spec', 0) + 1
     if c2 is not None:
         ctx.case(('group', key, 'c2jw'), action='Sites.GroupedSite.charge_to_JW_signs')
         signs = g.charge_to_JW_signs(g.leg.to_qflat())
@@ -865,8 +906,10 @@ def run_sites(ctx, fut):
         counts[op] = counts.get(op, 0) + 1
         if op in ('init', 'pick'):
             continue
-        if op in ('set_common_charges', 'GroupedSite', 'set_common_charges+GroupedSite') and quick and rng.random() > 0.3:
-            continue      # quick tier: a seeded third of the groupings is replayed (all of them are model-checked)
+        direct_same = op == 'GroupedSite' and st['grp']['pol'] == 'same'   # sites that really share a ChargeInfo: always replayed
+        if op in ('set_common_charges', 'GroupedSite', 'set_common_charges+GroupedSite') and quick and not direct_same \
+                and rng.random() > 0.15:
+            continue      # quick tier: a seeded share of the other groupings is replayed (all of them are model-checked)
         n += 1
         if op in ('set_common_charges', 'GroupedSite', 'set_common_charges+GroupedSite'):
             tabs = [CAT_TABLES(ctx)[m - 1] for m in st['members']]
@@ -926,16 +969,21 @@ def check(ctx):
     from concurrent.futures import ThreadPoolExecutor
     with ThreadPoolExecutor(max_workers=3) as ex:
         fs = ff = None
+        if 'fermion' in stages:
+            ff = [ex.submit(tlc.mc, 'Fermion', ferm_cfg(L, K, names, maxlen, spin_at), dump=True, workers=6, coverage=False)
+                  for (L, K, names, maxlen, share, spin_at) in fermion_configs(ctx)]
         if 'sites' in stages:
             fs = ex.submit(tlc.mc, 'Sites', sites_config(ctx), dump=True, workers=6, coverage=False)
-        if 'fermion' in stages:
-            ff = [ex.submit(tlc.mc, 'Fermion', ferm_cfg(L, K, names, maxlen), dump=True, workers=6, coverage=False)
-                  for (L, K, names, maxlen, share) in fermion_configs(ctx)]
         try:
+            if ff is not None:
+                cfgs = fermion_configs(ctx)
+                big = [k for k, c in enumerate(cfgs) if c[3] == 4 and c[0] * c[1] == 6 and not c[5]]
+                small = [k for k in range(len(cfgs)) if k not in big]
+                run_fermion(ctx, [cfgs[k] for k in small], [ff[k] for k in small])     # while the larger TLC runs go on
             if fs is not None:
                 run_sites(ctx, fs)
             if ff is not None:
-                run_fermion(ctx, ff)
+                run_fermion(ctx, [cfgs[k] for k in big], [ff[k] for k in big])
         finally:      # never leave TLC scratch directories behind, whatever happened above
             for f in ([fs] if fs is not None else []) + (ff or []):
                 try:
